@@ -346,7 +346,7 @@ func (w *world) mutate() {
 		}
 	case r < 30: // node create / address change
 		n := nodeNames[c.R.Intn(len(nodeNames))]
-		if nv := st.Nodes[n]; nv != nil && c.R.Intn(5) < 2 {
+		if nv := st.Nodes[n]; nv != nil && c.R.Intn(2) == 0 {
 			// IPv6 address of an existing node: set, change (re-addressing) or remove
 			nu := ""
 			if nv.Addr6 == "" || c.R.Intn(4) != 0 {
@@ -402,7 +402,7 @@ func (w *world) mutate() {
 		if nv == nil {
 			return
 		}
-		kind := []string{"vxlan", "ipip", "vxlan6"}[c.R.Intn(3)]
+		kind := []string{"vxlan", "ipip", "vxlan6", "vxlan6"}[c.R.Intn(4)]
 		old := nv.VXLANTun
 		if kind == "ipip" {
 			old = nv.IPIPTun
@@ -572,7 +572,7 @@ func (w *world) mutate() {
 func genTrueHistory(c *harness.Case) *world {
 	w := &world{c: c, events: map[string][]upd{},
 		st: &state{Pools: map[string]*poolV{}, Nodes: map[string]*nodeV{}, Blocks: map[string]*blockV{}, WEPs: map[string]*wepV{}}}
-	n := c.Pick(60, 120) + c.R.Intn(40)
+	n := c.Pick(110, 180) + c.R.Intn(50)
 	for i := 0; i < n; i++ {
 		w.mutate()
 	}
@@ -1191,6 +1191,15 @@ func onlyBlockDerived(a, b *proto.RouteUpdate) bool {
 		a.DstNodeIp == b.DstNodeIp && a.SameSubnet == b.SameSubnet && a.LocalWorkload == b.LocalWorkload
 }
 
+// onlySameSubnetDiffers: two routes agree on everything the statement fixes except SameSubnet.
+func onlySameSubnetDiffers(a, b *proto.RouteUpdate) bool {
+	if a == nil || b == nil || a.SameSubnet == b.SameSubnet {
+		return false
+	}
+	return a.Types == b.Types && a.IpPoolType == b.IpPoolType && a.DstNodeName == b.DstNodeName && a.DstNodeIp == b.DstNodeIp &&
+		a.LocalWorkload == b.LocalWorkload && a.Borrowed == b.Borrowed
+}
+
 func run(c *harness.Case) {
 	w := genTrueHistory(c)
 	fin := w.st
@@ -1237,6 +1246,8 @@ func run(c *harness.Case) {
 				key := "order-dependent-route"
 				if nestedInBlockCand(k) && onlyBlockDerived(a, b) {
 					key = "nested-route-not-refreshed-on-block-change"
+				} else if onlySameSubnetDiffers(a, b) {
+					key = "same-subnet-stale-after-local-subnet-change"
 				}
 				c.Violationf(key, detail, "%s: route %s differs from what the same final datastore state yields when delivered on its own: [%s] vs [%s]", name[i], k, relevant(a), relevant(b))
 				return
@@ -1276,7 +1287,7 @@ func main() {
 	harness.Main(harness.Check{
 		ID:    "C43",
 		Level: "exploration",
-		Rule: "each case is a TRUE datastore history of 60-100 (thorough 120-160) consistency-preserving mutations over 4 IPv4 + 3 IPv6 disjoint pools (none/ipip/vxlan x always/cross-subnet, IPv6 without ipip; LB-only), 5 nodes incl. the local one " +
+		Rule: "each case is a TRUE datastore history of 110-160 (thorough 180-230) consistency-preserving mutations over 4 IPv4 + 3 IPv6 disjoint pools (none/ipip/vxlan x always/cross-subnet, IPv6 without ipip; LB-only), 5 nodes incl. the local one " +
 			"(addresses in/out of the local subnet, VXLAN/IPIP tunnel addresses in/out of blocks and pools), 10 IPv4 + 8 IPv6 disjoint blocks (a /32 and a /128 block, a block equal to a pool, a block in no pool; affinity changes and releases; affine, borrowed, ownerless allocations) " +
 			"and 3 local workloads; IPAM records precede use and outlive it. Felix's view of it is built twice independently: per resource kind a snapshot at a random point followed by the remaining events in order, kinds interleaved at random, random flush points, optional resync; " +
 			"a third run delivers the final state alone. Every emitted message also goes to the real vxlan/ipip/noencap managers (shared recording route table, CompleteDeferredWork at every flush) whose final SetRoutes state is judged. non-trivial = the final state has a pool and at least one remote block or borrowed address; distinct by the two delivered histories",
@@ -1296,6 +1307,7 @@ func main() {
 		Run: run,
 		Floors: map[string]int64{"updates_delivered": 3000, "route_updates_seen": 3000, "route_removes_seen": 300, "remote_targets_checked": 800,
 			"same_subnet_targets": 30, "borrowed_targets": 100, "local_blocks_checked": 100, "local_weps_checked": 50, "order_comparisons": 2000,
+			"remote_targets_checked_v6": 300, "same_subnet_targets_v6": 5, "p2_direct_targets_v6": 5, "p2_tunnel_targets_v6": 5,
 			"dataplane_msgs": 10000, "setroutes_calls": 5000, "p2_direct_targets": 100, "p2_tunnel_targets": 100, "p2_local_blocks": 150, "p2_programmed_routes_checked": 500},
 	})
 }
